@@ -55,7 +55,11 @@ type built struct {
 }
 
 // buildWorkload generates blocks and operations and runs the uninterrupted reference (real node + model).
+// opEnd[i] is the number of I/O events seen when op i of the reference run had returned.
+var opEnd []int
+
 func buildWorkload(k *mon.Case, dir string) (*Workload, int, []string, bool) {
+	opEnd = nil
 	r := k.Rand
 	fam := []string{node.FamRegtest, node.FamVarWork}[r.Intn(2)]
 	g := chaingen.New(node.NewParams(fam), fam, r)
@@ -102,6 +106,7 @@ func buildWorkload(k *mon.Case, dir string) (*Workload, int, []string, bool) {
 		w.Ops = append(w.Ops, WOp{Kind: "blk", Block: i})
 		s.DeliverBlock(b)
 		w.TipAfter = append(w.TipAfter, tipIdx())
+		opEnd = append(opEnd, events)
 	}
 	// base chain
 	tip := g.Tree.Genesis
@@ -146,16 +151,19 @@ func buildWorkload(k *mon.Case, dir string) (*Workload, int, []string, bool) {
 			w.Ops = append(w.Ops, WOp{Kind: "flush", Arg: int(mode)})
 			s.Flush(mode)
 			w.TipAfter = append(w.TipAfter, tipIdx())
+			opEnd = append(opEnd, events)
 		case x < 92:
 			if invalidated == nil && s.Tip.Height > 4 {
 				invalidated = s.Tip.Ancestor(s.Tip.Height - int32(r.Intn(3)))
 				w.Ops = append(w.Ops, WOp{Kind: "inv", Block: index[invalidated]})
 				s.Invalidate(invalidated)
 				w.TipAfter = append(w.TipAfter, tipIdx())
+				opEnd = append(opEnd, events)
 			} else if invalidated != nil {
 				w.Ops = append(w.Ops, WOp{Kind: "rec", Block: index[invalidated]})
 				s.Reconsider(invalidated)
 				w.TipAfter = append(w.TipAfter, tipIdx())
+				opEnd = append(opEnd, events)
 				invalidated = nil
 			}
 		}
@@ -164,6 +172,7 @@ func buildWorkload(k *mon.Case, dir string) (*Workload, int, []string, bool) {
 		w.Ops = append(w.Ops, WOp{Kind: "rec", Block: index[invalidated]})
 		s.Reconsider(invalidated)
 		w.TipAfter = append(w.TipAfter, tipIdx())
+		opEnd = append(opEnd, events)
 	}
 	ok := !s.Failed
 	// count the events of an orderly close too (the children close as well)
@@ -196,8 +205,18 @@ func runCase(k *mon.Case) {
 		npoints = 40
 	}
 	pts := map[int]bool{}
-	for len(pts) < npoints && len(pts) < E {
-		pts[1+r.Intn(E)] = true
+	// half of the points are uniform over the whole run, half fall inside the last three operations, where a
+	// stored-but-not-connected or half-committed state cannot be repaired by later deliveries
+	tail := 0
+	if n := len(opEnd); n >= 4 && n == len(w.Ops) {
+		tail = opEnd[n-4]
+	}
+	for tries := 0; len(pts) < npoints && len(pts) < E && tries < 10*npoints; tries++ {
+		if tail > 0 && tail < E && len(pts)%2 == 1 {
+			pts[tail+1+r.Intn(E-tail)] = true
+		} else {
+			pts[1+r.Intn(E)] = true
+		}
 	}
 	for kpt := range pts {
 		mode := crashkit.ModeDeath
